@@ -18,6 +18,22 @@ BUILT = {
             "instances under 3 (quick) / 12 (thorough) option configurations; decode must equal what was written",
             E1_NOTE, "DESIGN.md section 6, C01"),
     # id: (category, technique, level text, level note, design ref)
+    "C04": ("model_checking",
+            "bounded-exhaustive input-shape enumeration on the real assembler (all xmm/ymm/mm/BMI2 register tuples, "
+            "every memory form over key address shapes), decoded by objdump and compared with a reference ISA model",
+            "the complete register-tuple space of every vector/VEX/BMI2/ADX form (340k lines) is executed on fresh "
+            "instances; prefixes, map, L, W, vvvv and R/X/B are checked through the decoded operation, registers, "
+            "operand size and vector length",
+            E1_NOTE, "DESIGN.md section 6, C04"),
+    "C05": ("model_checking",
+            "bounded-exhaustive enumeration of displacement values (every d in -129..128, the 2^15/2^31/2^32 "
+            "neighbourhoods) x mnemonics x keywords x spellings on the real assembler; decode-and-compare, must-reject "
+            "set from the property statement",
+            "every relative-branch mnemonic x keyword x displacement of the alphabet is executed; accepted lines must "
+            "decode to the same operation with field = d, lines that could only wrap must be rejected and emit nothing; "
+            "indirect near/far forms over all registers and key address shapes",
+            E1_NOTE + "; a displacement written as 0x80000000..0xffffffff is read modulo 2^32 (lenient)",
+            "DESIGN.md section 6, C05"),
     "C12": ("model_checking",
             "explicit-state BFS over the real setter API to a fixpoint, lockstep with a documentation model; plus all "
             "setter sequences up to depth 3/4 and all two-instance interleavings up to depth 2/3, exhaustively",
